@@ -15,6 +15,9 @@ cd "$wt"
 export CARGO_NET_OFFLINE=true CARGO_TARGET_DIR="$wt/target"
 res() { echo "$1" >> "$dir/confirm.log"; }
 : > "$dir/confirm.log"
+if [ -n "${EVAL_CHECKS_ONLY:-}" ] && [ -f "$dir/confirm.env" ]; then
+  . "$dir/confirm.env"
+else
 # demo on the clean tree
 cp "$dir/demo.rs" tests/demo.rs
 cargo test --offline --test demo > "$dir/demo_clean.log" 2>&1; demo_clean=$?
@@ -26,8 +29,13 @@ cp "$dir/demo.rs" tests/demo.rs
 cargo test --offline --test demo > "$dir/demo_patched.log" 2>&1; demo_patched=$?
 rm -f tests/demo.rs
 git checkout -q -- . 
+echo "demo_clean=$demo_clean tests_code=$tests_code passed=${passed:-0} demo_patched=$demo_patched" > "$dir/confirm.env"
+fi
 cd /verif; unset CARGO_TARGET_DIR
 declare -A verdicts
+# EVAL_CONFIRM_ONLY=1: confirmation only (can run in parallel for several changes); run the checks
+# afterwards, one change at a time, with EVAL_CHECKS_ONLY=1 (they patch /repo itself)
+[ -n "${EVAL_CONFIRM_ONLY:-}" ] && checks=()
 for c in "${checks[@]}"; do
   out=$(env -u CARGO_TARGET_DIR timeout 1500 /verif/tools/with_patch.sh "$dir/patch.diff" ./check "$c" quick 2>&1); code=$?
   echo "$out" > "$dir/check_$c.log"
